@@ -76,21 +76,24 @@ Finish ==
            attr0 == {LookupI(ftree, fbatch[i].u, ins) : i \in {i \in DOMAIN fbatch : fbatch[i].k = "ok"}}
            disc  == [total |-> dt2]
            dlaw(k) == IF Mode = "plugin" THEN DiscLaw(dexp, fbatch, k, disc) ELSE "ok"
-           good  == {c \in OpenChoices(fbatch) \X {attr, attr0} :
-                        dlaw(c[1]) = "ok" /\ (Flows \/ OutLaw(Extend(hist, fbatch, c[2], c[1]), file2) = "ok")}
+           good  == IF OpenChoices(fbatch) = {{}} /\ attr = attr0 THEN {}
+                    ELSE {c \in OpenChoices(fbatch) \X {attr, attr0} :
+                            dlaw(c[1]) = "ok" /\ (Flows \/ OutLaw(Extend(hist, fbatch, c[2], c[1]), file2) = "ok")}
            pick  == IF good = {} THEN <<{}, attr>> ELSE CHOOSE c \in good : TRUE
            keep  == pick[1]
            h2    == IF Flows THEN hist ELSE Extend(hist, fbatch, pick[2], keep)
            nc    == NCounted(fbatch, keep)
            tl2   == IF nc > 0 /\ ~Flows THEN [lo |-> now, hi |-> now] ELSE tl
            tf2   == IF nc > 0 /\ ~Flows /\ tf = None THEN [lo |-> now, hi |-> now] ELSE tf
+           olaw  == OutLaw(h2, file2)
+           tlaw  == TimesLaw(tf2, tl2, file2)
        IN  /\ agg' = agg2 /\ file' = file2 /\ dtotal' = dt2 /\ ins' = ins2
            /\ hist' = h2 /\ dexp' = dexp + (IF Mode = "plugin" THEN nc ELSE 0) /\ tf' = tf2 /\ tl' = tl2
            /\ usedGen' = ftree.gen
            /\ verdict' = IF dlaw(keep) # "ok" THEN dlaw(keep)
                          ELSE IF Flows THEN (IF file2 # NoFile THEN "Flows-Touched" ELSE "ok")
-                         ELSE IF OutLaw(h2, file2) # "ok" THEN OutLaw(h2, file2)
-                         ELSE IF TimesLaw(tf2, tl2, file2) # "ok" THEN TimesLaw(tf2, tl2, file2)
+                         ELSE IF olaw # "ok" THEN olaw
+                         ELSE IF tlaw # "ok" THEN tlaw
                          ELSE IF ftree.gen < usedGen THEN "Tree-Stale"
                          ELSE "ok"
     /\ fpc' = "idle" /\ fbatch' = <<>>
